@@ -110,32 +110,31 @@ def run(ctx: Ctx):
     key = norm(mc.func.value.slice) if isinstance(mc.func.value, ast.Subscript) else None
     table = norm(mc.func.value.value) if isinstance(mc.func.value, ast.Subscript) else None
     arg_ok = len(mc.args) == 1 and norm(mc.args[0]) == mol
-    from .exmap import _resolve_local
-    keyv = None
-    for s in ml.body:
-        if isinstance(s, ast.Assign) and norm(s.targets[0]) == key:
-            keyv = norm(s.value)
+    from ..pat import single_defs
+    from ..cfg import cguards_of, canon_test
+    sd = single_defs(f.node)
+    keyv = norm(sd[key]) if key in sd else None
     key_is_name = (keyv == "%s.name" % mol) or key == "%s.name" % mol
-    skips = [n for n in ml.body if isinstance(n, ast.If) and isinstance(n.test, ast.Compare) and isinstance(n.test.ops[0], ast.NotIn)
-             and norm(n.test.left) == key and norm(n.test.comparators[0]) == table and len(n.body) == 1 and isinstance(n.body[0], ast.Continue)]
-    ok = arg_ok and key_is_name and table == cc and bool(skips)
-    if ok:
-        st_map = [s for s in ml.body if any(mc is x for x in ast.walk(s))][0]
-        ok = ml.body.index(skips[0]) < ml.body.index(st_map)
+    pm_ = parents_map(ml)
+    want = canon_test(ast.parse("%s in %s" % (key, table), mode="eval").body, True) if key and table else None
+    gs = cguards_of(mc, pm_)
+    ok = arg_ok and key_is_name and table == cc and want is not None and gs == [want]
     ctx.ob("R5.2", f, mc, ok,
            "a molecule is skipped exactly when its species name is not in the complete correspondence, and otherwise "
            "mapped with the exchange map stored under that same name, applied to that molecule", node=mc,
-           key=key, key_value=keyv, table=table)
-    # no other way out of the molecule loop body
-    esc = [n for n in walk_no_nested(ml) if isinstance(n, (ast.Break, ast.Return)) or (isinstance(n, ast.Continue) and not any(n is s.body[0] for s in skips))]
+           key=key, key_value=keyv, table=table, guards=[list(g) for g in gs])
+    # no other way out of the molecule loop body (the species filter is the only thing that skips a molecule)
+    esc = [n for n in walk_no_nested(ml) if isinstance(n, (ast.Break, ast.Return, ast.Continue))]
     ctx.ob("R5.2", f, "other exits of the molecule loop: %d" % len(esc), not esc,
-           "no molecule of a mapped species is dropped (the species filter is the only `continue`)", node=esc[0] if esc else ml)
+           "no molecule of a mapped species is dropped (the species filter is the only skip)", node=esc[0] if esc else ml)
 
     # ------------------------------------------------------------------ R5.3 / R5.4
     new_mol = None
-    for s in ml.body:
-        if isinstance(s, ast.Assign) and any(mc is x for x in ast.walk(s.value)):
+    for s in walk_no_nested(ml):
+        if isinstance(s, ast.Assign) and s.value is mc:
             new_mol = norm(s.targets[0])
+    if new_mol is None:
+        new_mol = norm(mc)            # the map's result is iterated directly
     atom_loops = [n for n in walk_no_nested(ml) if isinstance(n, ast.For) and n is not ml and norm(n.iter) == new_mol]
     if not atom_loops:
         ctx.ob("R5.3", f, "atom loop", False, "every atom of the mapped molecule is written -- loop over the map's result not found", node=ml)
